@@ -311,6 +311,26 @@ def runNoLB (p : Program) : List Nat → List Item
   | [] => []
   | c :: w => goL (table p) p.rb w (some c) true none
 
+/-- `RunOptions::right_boundary_override` (mod.rs `RunIter::next`: `right_for_lookup`, then
+`get_replacement`): at the end of the word the caller's override is looked up if there is
+one, otherwise the font's own boundary character. -/
+def effRb (p : Program) (ov : Option Nat) : Option Nat :=
+  match ov with
+  | some c => some c
+  | none => p.rb
+
+/-- M: `run_with_options(word, RunOptions { disable_left_boundary, right_boundary_override })`. -/
+def runOpt (p : Program) (noLB : Bool) (ov : Option Nat) (w : List Nat) : List Item :=
+  if noLB then
+    match w with
+    | [] => []
+    | c :: w => goL (table p) (effRb p ov) w (some c) true none
+  else runCompiled (table p) (effRb p ov) w
+
+/-- The program with another right boundary character (S for an override: the override
+simply *is* the right boundary of the run). -/
+def withRb (p : Program) (rb : Option Nat) : Program := { p with rb := rb }
+
 /-! ## Observations -/
 
 /-- What the property compares: characters, ligature glyphs and kerns, in order. -/
